@@ -343,8 +343,21 @@ def run(prog, rep, tier, cfg):
             X.guard('K6b', 'semantics:SIGNEXTEND:index-bound', f, sites, m_rel('lt', ['P:1'], ['V:32'], True, pure=True), 'index < 32, else the value is unchanged')
     # ---- signed helpers the signed instructions delegate to (evm shared uints): operator identity, operand order, sign logic
     signed(prog, rep, X)
+    # ---- narrowing a 256-bit word to a machine integer keeps only its low bits: everywhere the interpreter does it, the word has
+    # been compared with a bound first (index < 32, shift < 256, offset < data length ...), so the dropped bits are known zero;
+    # the one intended truncation is MSTORE8's low byte
+    narrowing(prog, rep, X)
     # ---- (4) role binding of memory / storage / copy / hash / return instructions
     roles(prog, rep, X, impls)
+    # ---- JUMP / JUMPI semantics need the jump-destination map: a byte is a destination only if it is JUMPDEST outside push data,
+    # and the data of PUSH1..PUSH32 (inclusive) is skipped by exactly its length (rows shared in spirit with C18)
+    BN = prog.fns.get(CR + '::interpreter::bytecode::Bytecode::new')
+    if BN is None:
+        rep.ob('K6b', 'jumpdest-map', False, 'Bytecode::new not found (fail closed)')
+    else:
+        lo = X.find_conds(BN, m_rel('ge', [], ['K:PUSH1'], True, pure=True))
+        hi = X.find_conds(BN, m_rel('le', [], ['K:PUSH32'], True, pure=True))
+        rep.need('K6b', 'jumpdest-map:push-range-inclusive', bool(lo) and bool(hi), 'the push-data skip applies to PUSH1 <= op <= PUSH32, both bounds inclusive', X.loc(BN))
     # ---- error discipline: no Result produced in these crates is silently discarded
     X.no_dropped_results('K14', 'results-not-discarded', ['fil_actor_evm', 'fil_actors_evm_shared'], 'no Result of a call is discarded')
     X.tolerated_failures('K15', 'tolerated-failures', ['fil_actor_evm', 'fil_actors_evm_shared'], 'tolerated failures are the reviewed ones')
@@ -395,6 +408,34 @@ def source_calls(prog, f, op, depth=0, seen=None):
                     for a in c.args:
                         out |= source_calls(prog, f, a, depth + 1, seen)
     return out
+
+
+def narrowing(prog, rep, X):
+    INTENDED = {INS + 'memory::mstore8': 'MSTORE8 stores the low byte'}
+    n = 0
+    for f in sorted(prog.bodies(), key=lambda f: f.id):
+        if f.crate != CR or f.kind not in ('fn', 'assocfn', 'closure') or NEUTRAL.search(f.id):
+            continue
+        for c in f.calls:
+            if not re.search(r'uints::U256::(low_u64|low_u32|as_u64|as_u32|as_usize|low_u128|as_u128)$', c.callee or ''):
+                continue
+            n += 1
+            if f.id in INTENDED:
+                continue
+            rr = {a for a in prog.slicer.operand(f, c.args[0]) if a[0] == 'P'}
+            ok = False
+            for cd in conds(f, prog.slicer):
+                if cd.kind != 'rel' or cd.rel not in ('lt', 'le'):
+                    continue
+                sides = [{a for a in cd.A if a[0] == 'P'}, {a for a in cd.B if a[0] == 'P'}]
+                if not any(rr and rr <= sd for sd in sides):
+                    continue
+                for arm, tb in cd.arms.items():
+                    if c.bb not in f.reach([0], removed=[X.edge(cd, arm)]):
+                        ok = True
+            rep.need('K6b', 'narrowing:%s:%s' % (f.id.split('::', 3)[-1], (c.callee or '').split('::')[-1]), ok,
+                     'the word narrowed by %s must have been compared with a bound on every path to the narrowing (its high bits are otherwise silently dropped)' % (c.callee or '').split('::')[-1], c.where)
+    rep.floor('K6b', 'word_narrowing_sites', n, 5)
 
 
 def signed(prog, rep, X):
